@@ -761,7 +761,10 @@ class FamWorld:
         if bad:
             raise _V(Violation("NON-INT", f"tokenise emitted non-integer tick fields: {bad[:4]}",
                                {"op": "tokenise", "route": fam.route}))
-        badstate = {k: v for k, v in state.items() if type(v) is not int}
+        import numbers
+        # only *numeric* entries are ticks / counters; flags (bool), None, strings or containers are not judged
+        badstate = {k: v for k, v in state.items()
+                    if isinstance(v, numbers.Number) and not isinstance(v, bool) and not observe.is_integer_value(v)}
         if badstate:
             raise _V(Violation("NON-INT", f"state dictionary holds non-integer values: {badstate}",
                                {"op": "tokenise", "route": fam.route}))
